@@ -707,6 +707,38 @@ def run(chk, facts, tier, only=None):
         chk.expect(r.get("depth") == (1, True, True) and set(r) == {"depth"}, "budget:restore_state",
                    f"GenConfig::restore_state must give back exactly the depth taken by update_state (+1, same condition) and leave size "
                    f"consumed; found {r}", ok_detail=str(r))
+        # the size of a type decides which alternative is "smallest" once the budget is used up.  size_helper reports `None` (infinite)
+        # when it meets a name that is in `seen`; for that to mean "recursive", `seen` must hold exactly the names on the current expansion
+        # path: inserted before the definition is expanded, removed again when the expansion has been sized.
+        sh = cp.fn(r"^candid_parser::random::size_helper$")
+        chk.analysed(sh["key"])
+        sm = the_match(sh, r"TypeInner$", 5)
+        vrow = [row for row in arm_rows(sm) if ti_heads(row) == ["Var"]]
+        if len(vrow) != 1:
+            raise AnchorMissing("size_helper: Var arm not found")
+        scope_nodes = [vrow[0]["body"]] + ([vrow[0]["guard"]] if vrow[0].get("guard") else [])
+        sets = [b["n"] for prm in sh["params"] for b in walk(prm) if b.get("k") == "bind" and re.search(r"(HashSet|BTreeSet)<", b.get("ty") or "")]
+        ins = [x for sn in scope_nodes for x in walk(sn) if x.get("k") == "mcall" and x["m"] == "insert" and local_name(x["recv"]) in sets]
+        rec = [x for sn in scope_nodes for x in walk(sn) if x.get("k") == "call" and callee(x) == sh["key"]]
+        rem = [x for sn in scope_nodes for x in walk(sn) if x.get("k") == "mcall" and x["m"] == "remove" and local_name(x["recv"]) in sets]
+        if not ins or not rec:
+            raise AnchorMissing("size_helper: `seen.insert(id)` / recursive call not found in the Var arm")
+        order = {id(x): i for i, x in enumerate(y for sn in scope_nodes for y in walk(sn))}
+        spar = parent_map(vrow[0]["body"])
+
+        def same_block_after(r, c):
+            """the remove is a later statement of a block that (transitively) contains the recursive call"""
+            for anc in ancestors(r, spar):
+                if anc.get("k") == "block":
+                    return contains(anc, c) and order[id(r)] > order[id(c)]
+            return False
+        okpath = all(order[id(i)] < order[id(c)] for i in ins for c in rec) and \
+            all(any(local_name(r["recv"]) == local_name(ins[0]["recv"]) and same_block_after(r, c) for r in rem) for c in rec)
+        chk.expect(okpath, "size_helper:seen-is-the-expansion-path",
+                   f"size_helper: the name inserted into `{sets}` before expanding a definition must be removed again after the expansion was sized "
+                   f"(insert: {len(ins)}, recursive calls: {len(rec)}, removes after them: {len(rem)}); otherwise a second, non-recursive mention of a "
+                   f"definition is sized as infinite, the recursive alternative ties with the base case and generation runs past the depth limit",
+                   where=f"{sh['span']['file']}:{vrow[0]['ln']}", ok_detail="seen.insert(id) … size_helper(..) … seen.remove(id)")
         # the cut-off tests read the same two fields
         h = any_fn()
         cut = {}
